@@ -45,6 +45,12 @@ ALPHA = {
     "sib": ("W-nest", {"values": (), "templates": ("mul2", "inc"), "leaves": [mgr.P("n", "x"), mgr.P("n", "y")],
                        "sources": [mgr.P("a")],
                        "extra": [("set", mgr.P("a"), 5), ("set", mgr.P("a"), 3), ("def", mgr.P("b"), mgr.tmpl("total", (mgr.P("n"),)))]}),
+    # a reader of a whole container, a reader of one of its members and of the first reader's result, then a push into the member;
+    # and functions generated for two inputs (the start set of an update has several members)
+    "diamond": ("W-nest", {"values": (), "templates": ("total", "add", "mul2"), "leaves": [mgr.P("b"), mgr.P("c")],
+                           "sources": [mgr.P("n", "x"), mgr.P("b"), mgr.P("a")],
+                           "extra": [("set", mgr.P("n", "x"), 5), ("set", mgr.P("a"), 3), ("callfun", (mgr.P("a"), mgr.P("n", "x")), (7, 11)),
+                                     ("callfun", (mgr.P("n", "y"), mgr.P("a")), (2, 9))]}),
     "nest_full": ("W-nest", {"values": (3, 5), "templates": ("mul2", "add"), "iops": (("add", ("lit", 1)),), "unreg": True,
                              "funs": ("F1",), "knobs": ("K1",)}),
 }
@@ -325,9 +331,69 @@ def job_unusual(_):
     return {"part": [(("unusual", 0), out)], "n": len(out)}
 
 
+# ----------------------------------------------------------------- P5 operand kinds
+def value_kinds():
+    import numpy as np
+    from fractions import Fraction
+    from decimal import Decimal
+    return [("int", 7), ("zero", 0), ("negint", -3), ("bool", True), ("int>2**53", 2 ** 53 + 1), ("hugeint", 10 ** 400),
+            ("float", 2.5), ("negzero", -0.0), ("inf", float("inf")), ("nan", float("nan")), ("complex", 1 + 2j),
+            ("Fraction", Fraction(1, 3)), ("Decimal", Decimal("1.5")), ("np.float64", np.float64(2.5)), ("np.int64", np.int64(3)),
+            ("np.float32", np.float32(0.1)), ("array", np.array([1.0, 2.0])), ("intarray2d", np.array([[1, 2], [3, 4]])),
+            ("str", "ab"), ("list", [1, 2]), ("tuple", (1,)), ("None", None)]
+
+
+def job_kinds(_):
+    """every operator and builtin of the expression classes over EVERY pair of operand value kinds (Python numbers of all widths,
+    exact and inexact, numpy scalars and arrays, sequences, None), with the values held in the container (ref op ref), and with a
+    literal on either side; the outcome is compared type-aware.  A build that narrows the operand types of one node shows here."""
+    import warnings
+    import xdeps
+    warnings.simplefilter("ignore")
+    kinds = value_kinds()
+    out = []
+    m = xdeps.Manager()
+    data = {"x": None, "y": None}
+    s = m.ref(data, "s")
+    bins = list(T.BIN.items())
+    exprs = {n: f(s["x"], s["y"]) for n, f in bins}
+    for n, f in bins:
+        for ka, a in kinds:
+            for kb, b in kinds:
+                if n in ("pow", "lshift") and isinstance(b, int) and abs(b) > 1000:
+                    out.append(b"skip")
+                    continue
+                if n == "mul" and ((isinstance(a, int) and abs(a) > 1000 and isinstance(b, (str, list, tuple))) or
+                                   (isinstance(b, int) and abs(b) > 1000 and isinstance(a, (str, list, tuple)))):
+                    out.append(b"skip")
+                    continue
+                data["x"], data["y"] = a, b
+                tr = [n, ka, kb]
+                if n in exprs:
+                    tr.append(vdesc(E.outcome(exprs[n]._get_value)))
+                if n != "eq":
+                    tr.append(vdesc(E.outcome(lambda: value_or_plain(f(s["x"], b)))))
+                    tr.append(vdesc(E.outcome(lambda: value_or_plain(f(a, s["y"])))))
+                out.append(dg(tr))
+    uns = list(T.UN.items()) + [(n, f) for n, f in T.BUILTINS.items() if n != "divmod"]
+    for n, f in uns:
+        e = E.outcome(lambda: f(s["x"]))
+        for ka, a in kinds:
+            data["x"] = a
+            if e[0] != "ok":
+                out.append(dg([n, ka, e[0]]))
+            else:
+                out.append(dg([n, ka, vdesc(E.outcome(lambda: value_or_plain(e[1])))]))
+    return {"part": [(("kinds", 0), out)], "n": len(out)}
+
+
+def value_or_plain(v):
+    return v._get_value() if hasattr(v, "_get_value") else v
+
+
 # ----------------------------------------------------------------- driver
 def sizes(tier):
-    return {"nest": 3, "mixq": 2, "sib": 5} if tier == "quick" else {"nest": 3, "mix": 2, "nest_full": 2, "sib": 6}
+    return {"nest": 3, "mixq": 2, "sib": 5, "diamond": 3} if tier == "quick" else {"nest": 3, "mix": 2, "nest_full": 2, "sib": 6, "diamond": 4}
 
 
 def plan(tier, seed):
@@ -364,8 +430,9 @@ def run_job(job):
     r2 = E.pmap_collect(job_terms, [(lo, corpus[lo:lo + 500]) for lo in range(0, len(corpus), 500)], nproc)
     r3 = job_paths(None)
     r4 = job_unusual(None)
+    r5 = job_kinds(None)
     parts = {}
-    for r in r1 + r2 + [r3, r4]:
+    for r in r1 + r2 + [r3, r4, r5]:
         for key, lst in _parts(r):
             parts[key] = lst
     under = sum(1 for k, lst in parts.items() for x in lst if x is None)
